@@ -1,5 +1,5 @@
 (** C12 — One live session per client identifier. *)
-From Wasp Require Import Model.Base Spec.MatchSpec Model.DState Model.IdPool Model.Mount Model.Node Proofs.BaseFacts Proofs.MountFacts Proofs.NodeFacts.
+From Wasp Require Import Model.Base Spec.MatchSpec Model.DState Model.IdPool Model.Mount Model.Node Proofs.BaseFacts Proofs.MountFacts Proofs.NodeFacts Proofs.DStateFacts Proofs.TakeoverFacts.
 From stdpp Require Import list strings.
 Open Scope Z_scope.
 
@@ -13,6 +13,80 @@ Print Assumptions teardown_spares_new.
 Theorem teardown_keeps_records : ∀ cl i s clk, d_sess (n_d (after_unsub cl i s clk)) = d_sess (n_d (getn cl i)).
 Proof. exact teardown_spares_records. Qed.
 Print Assumptions teardown_keeps_records.
+
+(** The new session is always established.  On the node that serves a CONNECT whose client
+    identifier is in use (and whose credentials are accepted): the replicated session map becomes
+    [takeover d ...] — the record the identifier resolved to is tombstoned, the new one stored —
+    the identifier resolves to the new session and to nothing else, the session is registered
+    and CONNACK 0 is written.  Premises: the authenticator's session id is fresh, the strings are
+    well-formed UTF-8 (F22), the node's clock reading is above the stamp of the record it
+    replaces (LWW with wall clocks cannot do without: C08), and the identifier resolved to at most
+    one session before. *)
+Theorem new_session_established : ∀ cl i c cid user pass ka will clk,
+  (i < length (cl_nodes cl))%nat →
+  String.eqb pass "bad" || String.eqb pass "bad-static" = false →
+  let mp := if String.eqb user "" then "_default" else user in
+  let id := session_id (cl_next cl) in
+  let d := n_d (getn cl i) in
+  sess_ok (d_sess d) → alookup id (d_sess d) = None → id ≠ "" →
+  utf8_ok id = true → utf8_ok cid = true → utf8_ok mp = true → 0 < clk →
+  (∀ m, m ∈ sess_by_client mp cid d → sess_ts m < clk) →
+  (∀ m m', m ∈ sess_by_client mp cid d → m' ∈ sess_by_client mp cid d → m = m') →
+  let r := setup cl i c cid user pass ka will clk in
+  let new := SMeta id cid mp (d_peer d) will clk 0 in
+  n_d (getn r.1 i) = takeover d id cid mp will clk ∧
+  owner (getn r.1 i) mp cid = Some new ∧
+  alookup id (n_reg (getn r.1 i)) = Some (Sess id cid mp will ka [] c) ∧
+  Out c (OConnAck 0) ∈ r.2.
+Proof. exact takeover_established. Qed.
+Print Assumptions new_session_established.
+
+(** ... and becomes the one that every node resolves the identifier to: any node whose view
+    agreed with the serving node's before, and that merges the broadcasts the takeover queued,
+    resolves the identifier to exactly the new session. *)
+Theorem every_node_resolves_new : ∀ d r id cid mp lwt clk,
+  dok d → dok r → same_abs d r → alookup id (d_sess d) = None → id ≠ "" →
+  utf8_ok id = true → utf8_ok cid = true → utf8_ok mp = true → 0 < clk →
+  (∀ m, m ∈ sess_by_client mp cid d → sess_ts m < clk) →
+  (∀ m m', m ∈ sess_by_client mp cid d → m' ∈ sess_by_client mp cid d → m = m') →
+  let ops := match hd_error (sess_by_client mp cid d) with
+             | Some m => [DSessDelete (m_sid m) clk; DSessCreate id cid mp lwt clk]
+             | None => [DSessCreate id cid mp lwt clk] end in
+  let run := origin_run d ops in
+  run.1 = takeover d id cid mp lwt clk ∧
+  ∀ m, m ∈ sess_by_client mp cid (fold_left merge_event run.2 r) ↔ m = SMeta id cid mp (d_peer d) lwt clk 0.
+Proof. exact takeover_everywhere. Qed.
+Print Assumptions every_node_resolves_new.
+
+(** ... the earlier session stops being served no later than its next keep-alive exchange: a
+    PINGREQ on a session whose identifier resolves elsewhere (or to nothing) is answered by closing
+    the connection and by nothing else; the session the identifier resolves to gets its PINGRESP
+    and the cluster state is unchanged. *)
+Theorem displaced_stops_being_served : ∀ cl c clk k sid s,
+  find_conn cl c = Some k → c_closed k = false → c_sid k = Some sid →
+  alookup sid (n_reg (getn cl (c_node k))) = Some s →
+  (∀ m, owner (getn cl (c_node k)) (ss_mp s) (ss_cid s) = Some m → m_sid m ≠ ss_id s) →
+  (do_ping cl c clk).2 = [Closed (ss_conn s)].
+Proof. exact displaced_not_served. Qed.
+Print Assumptions displaced_stops_being_served.
+Theorem live_session_is_served : ∀ cl c clk k sid s m,
+  find_conn cl c = Some k → c_closed k = false → c_sid k = Some sid →
+  alookup sid (n_reg (getn cl (c_node k))) = Some s →
+  owner (getn cl (c_node k)) (ss_mp s) (ss_cid s) = Some m → m_sid m = ss_id s →
+  do_ping cl c clk = (cl, wout (cl_bad cl) c OPingResp ++ dl s).
+Proof. exact live_session_answered. Qed.
+Print Assumptions live_session_is_served.
+
+(** the premises are met by a reachable state in which the identifier is in use: node 1 of the
+    history below, just before the second CONNECT *)
+Example takeover_premises_hold :
+  let run := fold_left (λ st o, (step [] st o).1) in
+  let cl := run [EConnect 0%nat "old" "dev" "" "" 60 None 10; ESubscribe "old" 1 [("t", 0)] 20; EGossip 0%nat 1%nat] (cnew 2%nat) in
+  let d := n_d (getn cl 1%nat) in
+  d_sess d = [("s001", SMeta "s001" "dev" "_default" 1 None 10 0)] ∧
+  sess_by_client "_default" "dev" d = [SMeta "s001" "dev" "_default" 1 None 10 0] ∧
+  session_id (cl_next cl) = "s002" ∧ utf8_ok "s002" && utf8_ok "dev" && utf8_ok "_default" = true.
+Proof. vm_compute. done. Qed.
 
 (** takeover on one node and across nodes (non-vacuity / regression examples): the new session
     is established, the old one gets no PINGRESP and is closed at its next keep-alive exchange,
